@@ -181,6 +181,84 @@ func stressRebal(cfg M, tr *Trace, seed int64) {
 	tr.Emit(M{"e": "AtMost", "what": "1 <= every effective weight", "got": 1, "bound": minw})
 }
 
+// flipMeter alternates its rating so that the rebalancer keeps adjusting weights.
+type flipMeter struct {
+	bad  *atomic.Bool
+	mine bool
+}
+
+func (m *flipMeter) Rating() float64 {
+	if m.bad.Load() == m.mine {
+		return 0.5
+	}
+	return 0
+}
+func (m *flipMeter) Record(int, time.Duration) {}
+func (m *flipMeter) IsReady() bool             { return true }
+
+// stressRebalAdmin: every completing request adjusts weights (flapping ratings, tiny back-off) while one administration
+// goroutine removes and re-adds a server. A removed server must not be a member until it is added again.
+func stressRebalAdmin(cfg M, tr *Trace, seed int64) {
+	freeze()
+	tr.Emit(M{"e": "Reset", "scn": "rebaladmin", "cfg": M{}})
+	tab := newURLTable(seed)
+	h := http.HandlerFunc(func(w http.ResponseWriter, _ *http.Request) {})
+	rr, _ := roundrobin.New(h)
+	var bad atomic.Bool
+	n := 0
+	rb, err := roundrobin.NewRebalancer(rr, roundrobin.RebalancerBackoff(time.Nanosecond),
+		roundrobin.RebalancerMeter(func() (roundrobin.Meter, error) {
+			n++
+			return &flipMeter{bad: &bad, mine: n%2 == 0}, nil
+		}))
+	if err != nil {
+		fatal("NewRebalancer: %v", err)
+	}
+	for _, k := range []string{"a", "b", "c", "d"} {
+		rb.UpsertServer(tab.url(k, 0))
+	}
+	var ghosts atomic.Int64
+	var stop atomic.Bool
+	G := numOr(cfg, "goroutines", 8)
+	parallel(G+1, func(i int, r *rand.Rand) {
+		if i == G {
+			x := tab.url("d", 0)
+			present := func() bool {
+				for _, u := range rb.Servers() {
+					if u.Host == x.Host && u.Path == x.Path && u.Scheme == x.Scheme {
+						return true
+					}
+				}
+				return false
+			}
+			for k := 0; k < numOr(cfg, "adminops", 1500); k++ {
+				if err := rb.RemoveServer(x); err == nil {
+					for y := 0; y < 3; y++ {
+						runtime.Gosched()
+					}
+					if present() {
+						ghosts.Add(1)
+						rb.RemoveServer(x)
+						rr.RemoveServer(x)
+					}
+				}
+				rb.UpsertServer(x)
+				runtime.Gosched()
+			}
+			stop.Store(true)
+			return
+		}
+		for k := 0; !stop.Load(); k++ {
+			advance(time.Microsecond)
+			if k%7 == 0 {
+				bad.Store(!bad.Load())
+			}
+			rb.ServeHTTP(httptest.NewRecorder(), httptest.NewRequest(http.MethodGet, "http://front/", nil))
+		}
+	}, seed)
+	tr.Emit(M{"e": "Totals", "what": "removed server still a pool member", "expect": 0, "got": ghosts.Load()})
+}
+
 type lockedWriter struct {
 	mu sync.Mutex
 	n  int
@@ -258,5 +336,6 @@ func init() {
 	stressors["metrics"] = stressMetrics
 	stressors["rate"] = stressRate
 	stressors["rebal"] = stressRebal
+	stressors["rebaladmin"] = stressRebalAdmin
 	stressors["stackall"] = stressStackAll
 }
